@@ -279,15 +279,24 @@ class FrameInterp(Interp):
         return Interp.as_bv(self, v, w, signed)
 
     # ---- driver with forks on byte / checksum predicates
-    def run(self, st):
-        work = [(st, 0)]
+    def stop_at(self, st, b):
+        """hook: a subclass may end a path when it arrives at block b (loop heads in scansem.py)"""
+        return False
+
+    def run(self, st, start=0):
+        work = [(st, start)]
         paths = 0
+        first = True
         while work:
             st, b = work.pop()
             while True:
                 st.steps += 1
                 if st.steps > 20000:
                     raise Undecided("abstract execution does not terminate within 20000 blocks")
+                if not first and self.stop_at(st, b):
+                    paths += 1
+                    break
+                first = False
                 blk = self.blocks[b]
                 for s in blk["stmts"]:
                     if s["k"] != "assign":
@@ -361,6 +370,16 @@ class FrameInterp(Interp):
                     continue
                 if k == "call":
                     r = self.call(st, t)
+                    if isinstance(r, tuple) and r and r[0] == "fork-fn":
+                        # several outcomes, each computed on its own copy of the state
+                        if t["target"] is None:
+                            raise Undecided("diverging call")
+                        for fn_ in r[1]:
+                            s2 = st.clone()
+                            val_ = fn_(s2)
+                            self._set(s2, self.resolve(s2, t["dest"]), val_)
+                            work.append((s2, t["target"]))
+                        break
                     if isinstance(r, tuple) and r and r[0] == "fork-option":
                         _, cond, some = r
                         if isinstance(cond, UBool):
